@@ -606,6 +606,31 @@ def expr_guards(parents: dict[int, ast.AST], node: ast.AST, stop: Optional[set[i
     return out
 
 
+def controlling_facts(parents: dict[int, ast.AST], node: ast.AST) -> list[Fact]:
+    """Facts implied by the tests of the enclosing if / while / conditional constructs at the moment control *entered* the branch holding
+    `node` (syntactic control dependence with polarity).  Unlike the dataflow facts they are not killed by later mutation inside the branch:
+    they answer "under which condition was this branch taken", e.g. for a loop body that itself fills the list whose emptiness was tested."""
+    out: list[Fact] = []
+    child = node
+    par = parents.get(id(child))
+    while par is not None and not isinstance(par, (ast.FunctionDef, ast.AsyncFunctionDef, ast.Lambda, ast.ClassDef, ast.Module)):
+        if isinstance(par, (ast.If, ast.While)) and child is not par.test:
+            in_body = any(child is s for s in par.body)
+            in_else = any(child is s for s in par.orelse)
+            if in_body:
+                out += atom_facts(par.test, True)
+            elif in_else and isinstance(par, ast.If):
+                out += atom_facts(par.test, False)
+        elif isinstance(par, ast.IfExp):
+            if child is par.body:
+                out += atom_facts(par.test, True)
+            elif child is par.orelse:
+                out += atom_facts(par.test, False)
+        child = par
+        par = parents.get(id(child))
+    return out
+
+
 class FnFlow:
     """CFG + facts + convenience for one function of the program model."""
 
